@@ -145,17 +145,26 @@ class FuncDeps:
             return D, M
         if isinstance(e, ast.Name):
             n = e.id
-            if n in self.params:
-                D.add(n)
-            elif n in self.assigns or n in self.loops:
-                if n in seen:
+            line = getattr(e, "lineno", None)
+            if n in self.assigns or n in self.loops:
+                # the bindings that textually precede the use (all of them if none does: a use inside a loop);
+                # a parameter keeps its own identity unless an unconditional rebinding precedes the use
+                assigns = self.assigns.get(n, [])
+                before = [v for v in assigns if line is None or getattr(v, "lineno", 0) < line] or (assigns if n not in self.params else [])
+                rebound = any(getattr(getattr(v, "_parent", None), "_parent", None) is self.fn for v in before)
+                if n in self.params and not rebound:
+                    D.add(n)
+                key_ = (n, line)
+                if key_ in seen:
                     return D, M
-                seen = seen | {n}
-                for v in self.assigns.get(n, []):
+                seen = seen | {key_}
+                for v in before:
                     merge(self.roots(v, seen))
                 for it in self.loops.get(n, []):
                     merge(self.roots(it, seen))
                     D.add(f"element {n} of {ast.unparse(it)[:40]}")
+            elif n in self.params:
+                D.add(n)
             elif n in self.outer:
                 D.add(n)
             elif ("module", None, n) in self.module_containers:
